@@ -199,6 +199,43 @@ theorem header_counts (cones : List (Tag × Nat)) (tag : Tag) :
   unfold printConedimsByType
   simp only [h1, h0, ↓reduceIte]
 
+/-- [S] `C20.header_counts` (elision rule): for a cone type carried by `k ≥ 2` internal cones the
+line lists, in order, all `numel`s except the last followed by a comma when `k ≤ 5`, and the
+first four followed by `...,` when `k > 5`; then the last `numel` and the closing parenthesis.
+(`k = 1` prints the single `numel` without parentheses.) -/
+theorem header_elision (cones : List (Tag × Nat)) (tag : Tag)
+    (h2 : 2 ≤ (nvarsOf cones tag).length) :
+    printConedimsByType cones tag =
+      ("    : " ++ padLeft 11 tag.name ++ " = " ++ toString (nvarsOf cones tag).length ++ ", ")
+        ++ (" numel = ("
+          ++ String.join ((if (nvarsOf cones tag).length ≤ 5 then (nvarsOf cones tag).dropLast
+                           else (nvarsOf cones tag).take 4).map (fun v => toString v ++ ","))
+          ++ (if (nvarsOf cones tag).length ≤ 5 then "" else "...,")
+          ++ toString ((nvarsOf cones tag).getLast?.getD 0) ++ ")")
+        ++ "\n" := by
+  unfold printConedimsByType
+  have h0 : ¬ (nvarsOf cones tag).length = 0 := by omega
+  have h1 : ¬ (nvarsOf cones tag).length = 1 := by omega
+  simp only [h0, h1, ↓reduceIte]
+  by_cases h5 : (nvarsOf cones tag).length ≤ 5
+  · simp only [h5, ↓reduceIte, List.dropLast_eq_take, String.append_empty]
+  · simp only [h5, ↓reduceIte, String.append_assoc]
+
+theorem header_single (cones : List (Tag × Nat)) (tag : Tag) (h1 : (nvarsOf cones tag).length = 1) :
+    printConedimsByType cones tag =
+      ("    : " ++ padLeft 11 tag.name ++ " = " ++ toString 1 ++ ", ")
+        ++ (" numel = " ++ toString ((nvarsOf cones tag).getLast?.getD 0)) ++ "\n" := by
+  unfold printConedimsByType
+  simp [h1]
+
+/-- the rule on concrete lists: five are listed, six are elided -/
+example : printConedimsByType [(.Zero, 3), (.Nonnegative, 1), (.Nonnegative, 2), (.Nonnegative, 3),
+    (.Nonnegative, 4), (.Nonnegative, 5)] .Nonnegative
+    = "    : Nonnegative = 5,  numel = (1,2,3,4,5)\n" := by decide
+example : printConedimsByType [(.Nonnegative, 1), (.Nonnegative, 2), (.Nonnegative, 3),
+    (.Nonnegative, 4), (.Nonnegative, 5), (.Nonnegative, 6)] .Nonnegative
+    = "    : Nonnegative = 6,  numel = (1,2,3,4,...,6)\n" := by decide
+
 /-- [S] `C20.last_row`: the last row of the progress table shows the iteration count, the
 costs and the residuals of the `info` that is returned (the figures `solution.iterations`,
 `obj_val`, `obj_val_dual`, `r_prim`, `r_dual` are copied from) — on every path, including the
